@@ -229,6 +229,9 @@ Theorem check_gas_sound :
        Rabs (ideal_pressure (Q2R Rg) (Q2R T) (Q2R V) (ntot_R cs) - Q2R P) <= / 10000 * Rabs (Q2R P)) /\
   (forall Rg T P V m cs k ck phi, check_phi Rg T P V m cs k ck phi = true ->
      Rabs (exp (lnphi_R Rg T P V m cs k ck) - Q2R phi) <= / 1000000 * Rabs (Q2R phi)) /\
+  (forall tolw Rg T P Vw m cs k ck phi, check_phi_at tolw Rg T P Vw m cs k ck phi = true ->
+     Rabs (P_eos_R Rg T Vw m cs - Q2R P) <= Q2R tolw * Rabs (Q2R P) /\
+     Rabs (exp (lnphi_R Rg T P Vw m cs k ck) - Q2R phi) <= / 1000000 * Rabs (Q2R phi)) /\
   (forall Rg T P V m cs k ck,
      (check_clamped_hi Rg T P V m cs k ck = true -> 4.44 <= lnphi_R Rg T P V m cs k ck) /\
      (check_clamped_lo Rg T P V m cs k ck = true -> lnphi_R Rg T P V m cs k ck <= -4.6)) /\
@@ -245,8 +248,6 @@ Theorem check_gas_sound :
   (forall tol P l, check_below tol P l = true -> peq_sum_R l <= Q2R P * (1 + Q2R tol)) /\
   (forall Rg T P m cs, check_three_roots Rg T P m cs = true -> 0 < disc_R Rg T P m cs).
 Proof.
-  exact (conj check_eos_any_sound (conj check_ideal_any_sound (conj check_phi_sound (conj check_clamped_sound
-        (conj check_partial_sound (conj check_partial_floor_sound (conj check_psum_sound (conj check_fug_sound
-        (conj check_fug_floor_sound (conj check_reaches_sound (conj check_below_sound check_three_roots_sound))))))))))).
+  exact ((conj check_eos_any_sound (conj check_ideal_any_sound (conj check_phi_sound (conj check_phi_at_sound (conj check_clamped_sound (conj check_partial_sound (conj check_partial_floor_sound (conj check_psum_sound (conj check_fug_sound (conj check_fug_floor_sound (conj check_reaches_sound (conj check_below_sound check_three_roots_sound))))))))))))).
 Qed.
 Print Assumptions check_gas_sound.
